@@ -74,6 +74,10 @@ type Sample struct {
 	Text     string  `json:"text,omitempty"`
 }
 
+// needsObserver is the one-element observation an Exec returns for an input
+// that can only be run with a verif observer the tree under test lacks
+const needsObserver = -999997
+
 func (g *Gen) Quick() bool { return g.Tier != "thorough" }
 
 // Pick returns q in the quick tier and t in the thorough tier.
@@ -164,6 +168,11 @@ func (g *Gen) Case(stream string, nontrivial bool, in []int64) {
 
 // Raw records a case whose observables were produced by the caller.
 func (g *Gen) Raw(stream string, nontrivial bool, in, obs []int64) {
+	if len(obs) == 1 && obs[0] == needsObserver {
+		// the input needs an add-only observer (*_verif.go) that the tree under test does not carry
+		g.stats.Counters["skipped_needs_absent_observer"]++
+		return
+	}
 	g.stats.Evaluations++
 	full := stream // may carry a call sequence after '|' (repeat cases); statistics use the bare name
 	if i := strings.IndexByte(stream, '|'); i >= 0 {
